@@ -9,7 +9,7 @@ PID = "C18"
 RULE = ("random Bezier segments of degree 1..6 (rational coordinates k/4 in [-10,10], plus a float stream), "
         "parameters t rational in [0,1] (and a few outside), split node lists, query points on / near / far from "
         "the segment; a case is non-trivial when the segment is not degenerate (not all control points equal) "
-        "and, for on-curve queries, the point lies in the segment's bounding box; distinct = SHA-1 of the case")
+        "and, for on-curve queries, the point lies in the segment's bounding box; graphs of functions of degree 2 and 3 (x linear in t, arbitrarily bent): every C(k/32) must be `in` the segment; distinct = SHA-1 of the case")
 PROOF_STATUS = ("Props/C18.v: eval = Bernstein sum, derivative = formal derivative, split retraces, box encloses "
                 "(degrees 1..6, all control points, all t), comb = binomial, on_seg sound for any projection")
 
@@ -45,9 +45,17 @@ def cases(ctx):
             off = rng.choice([F(1, 2000000), F(1, 500000)])     # 0.5e-6 / 2e-6 off the line
             yield {"k": "on", "seg": s, "mode": "probe", "t": t2, "off": off}
         yield {"k": "wind", "seg": s, "p": (F(rng.randint(-60, 60), 4), F(rng.randint(-60, 60), 4)), "num": numtype}
+    # completeness of `p in segment` on regular, loop-free curved segments: graphs of functions (x linear in t), also
+    # strongly bent ones; every point C(k/32) must be found
+    for i in range(ctx.n(44, 400)):
+        d = 2 + (i % 4 == 3)
+        x0, w = F(rng.randint(-8, 8)), F(rng.randint(1, 6))
+        yield {"k": "graph", "seg": [(x0 + w * j / d, F(rng.randint(-12, 12))) for j in range(d + 1)]}
 
 
 def nontrivial(case):
+    if case["k"] == "graph":
+        return True
     s = case["seg"]
     if len(set(s)) < 2:
         return False
@@ -192,6 +200,19 @@ def check(ctx, case):
             fails.append(Fail(kind="O", what="`segment(t) in segment` raised", p=p, impl=ri))
         if d > 1 and mode == "at" and ri == ("ok", False):
             ctx.count("on:curved-at-false")
+    elif k == "graph":
+        d = len(s) - 1
+        ctx.count("graph:degree %d" % d)
+        segf = I.PlanarCurve([(float(p[0]), float(p[1])) for p in s])
+        missed = []
+        for kk in range(1, 32):
+            p = O.bez(s, F(kk, 32))
+            r = I.outcome(lambda: bool((float(p[0]), float(p[1])) in segf))
+            if r != ("ok", True):
+                missed.append((F(kk, 32), r))
+        if missed:
+            fails.append(Fail(kind="O", what="`C(t) in segment` is not True for %d of 31 points of a regular loop-free segment of degree %d" % (len(missed), d),
+                              t=missed[0][0], impl=missed[0][1]))
     elif k == "wind":
         p = case["p"]
         # stay away from the segment: angle is discontinuous on it
